@@ -70,13 +70,23 @@ impl RecState {
     }
 }
 
-fn herr() -> VuError {
-    VuError::ReqHandlerError(std::io::Error::from_raw_os_error(libc::EIO))
+/// The scripted failure of a backend-side handler; which error value it carries is derived from
+/// the script (errno 0 and errors without errno included: a failure is a failure whatever it
+/// carries).
+fn herr(s: &Script) -> VuError {
+    VuError::ReqHandlerError(match s.val % 6 {
+        0 => std::io::Error::from_raw_os_error(0),
+        1 => std::io::Error::from_raw_os_error(libc::EINVAL),
+        2 => std::io::Error::other("scripted failure without errno"),
+        3 => std::io::Error::from_raw_os_error(i32::MAX),
+        4 => std::io::Error::from_raw_os_error(-1),
+        _ => std::io::Error::from_raw_os_error(libc::EIO),
+    })
 }
 
 fn unit(s: &Script) -> VuResult<()> {
     if s.fail {
-        Err(herr())
+        Err(herr(s))
     } else {
         Ok(())
     }
@@ -224,14 +234,14 @@ impl VhostUserBackendReqHandlerMut for RecMut {
     fn get_shared_object(&mut self, uuid: VhostUserSharedMsg) -> VuResult<File> {
         let s = self.st.push(FReq::GetSharedObject(*uuid.uuid.as_bytes()), vec![]);
         if s.fail {
-            return Err(herr());
+            return Err(herr(&s));
         }
         Ok(self.st.produce("shobj"))
     }
     fn get_inflight_fd(&mut self, inflight: &VhostUserInflight) -> VuResult<(VhostUserInflight, File)> {
         let s = self.st.push(FReq::GetInflightFd(inflight_of(inflight)), vec![]);
         if s.fail {
-            return Err(herr());
+            return Err(herr(&s));
         }
         let f = self.st.produce("inflight");
         Ok((
@@ -266,7 +276,7 @@ impl VhostUserBackendReqHandlerMut for RecMut {
             vec![fd],
         );
         if s.fail {
-            return Err(herr());
+            return Err(herr(&s));
         }
         if s.with_file {
             Ok(Some(self.st.produce("devstate")))
@@ -280,7 +290,7 @@ impl VhostUserBackendReqHandlerMut for RecMut {
     fn get_shmem_config(&mut self) -> VuResult<VhostUserShMemConfig> {
         let s = self.st.push(FReq::GetShmemConfig, vec![]);
         if s.fail {
-            return Err(herr());
+            return Err(herr(&s));
         }
         let n = (s.val % 257) as u32;
         let sizes: Vec<u64> = (0..256u64).map(|i| s.val.wrapping_mul(i + 1)).collect();
